@@ -141,6 +141,18 @@ func vfC20Run(t *testing.T, res *vfResult, c vfC20Case, realTime bool) {
 			synctest.Wait()
 		}
 	}
+	var ackHole atomic.Bool
+	if c.Fault == "nst-ack-lost" {
+		// the client's epoch-3 datagrams (its ACK of the NewSessionTicket) are lost until the server starts a key
+		// update: the ticket flight is still unacknowledged when the update begins
+		ackHole.Store(true)
+		n.SetOnSend(func(n *vfNet, w *vfWire) {
+			if ackHole.Load() && w.From == "c" && len(w.Data) > 0 && w.Data[0]&0xe0 == 0x20 && w.Data[0]&3 == 3 {
+				return
+			}
+			n.Deliver(w.Dst, w.Data, vfAddrOf(w.From))
+		})
+	}
 	if ce, se := p.Handshake(time.Minute); ce != nil || se != nil {
 		res.Count("handshake_failed", 1)
 		p.Close()
@@ -150,7 +162,9 @@ func vfC20Run(t *testing.T, res *vfResult, c vfC20Case, realTime bool) {
 	}
 	p.C.StartPump()
 	p.S.StartPump()
-	time.Sleep(3 * time.Second) // tickets and their ACKs settle
+	if c.Fault != "nst-ack-lost" {
+		time.Sleep(3 * time.Second) // tickets and their ACKs settle
+	}
 	wait()
 	tk, err := vfNewToolkit(p)
 	if err != nil || !tk.is13 {
@@ -184,7 +198,18 @@ func vfC20Run(t *testing.T, res *vfResult, c vfC20Case, realTime bool) {
 		deliveredTo[to].Add(1)
 		n.Deliver(w.Dst, w.Data, vfAddrOf(w.From))
 	}
-	if c.Fault != "none" {
+	if c.Fault == "nst-ack-lost" {
+		n.SetOnSend(func(n *vfNet, w *vfWire) {
+			if ackHole.Load() && w.From == "c" && len(w.Data) > 0 && w.Data[0]&0xe0 == 0x20 && w.Data[0]&3 == 3 {
+				fmu.Lock()
+				fates[w.Ticket] = &vfC20Fate{Ticket: w.Ticket, Dropped: true}
+				fmu.Unlock()
+
+				return
+			}
+			deliver(w)
+		})
+	} else if c.Fault != "none" {
 		n.SetOnSend(func(n *vfNet, w *vfWire) {
 			f := &vfC20Fate{Ticket: w.Ticket}
 			fmu.Lock()
@@ -266,6 +291,9 @@ func vfC20Run(t *testing.T, res *vfResult, c vfC20Case, realTime bool) {
 		if c.Fault == "blackhole-acks" && side.Name == "s" {
 			nUpd = 0
 		}
+		if c.Fault == "nst-ack-lost" && side.Name == "c" {
+			nUpd = 0
+		}
 		wg.Add(1)
 		go func() {
 			defer wg.Done()
@@ -274,6 +302,9 @@ func vfC20Run(t *testing.T, res *vfResult, c vfC20Case, realTime bool) {
 				req := c.Request == 1 || (c.Request == 2 && k%2 == 0)
 				ctx, cancel := context.WithTimeout(context.Background(), 20*time.Second)
 				u := upd{side: side.Name, delivBefore: deliveredTo[idxOf(side.Name)].Load(), genBefore: curGen(side)}
+				if c.Fault == "nst-ack-lost" {
+					ackHole.Store(false) // from here on the path is clean: the KeyUpdate's own ACK gets through
+				}
 				if c.Fault == "blackhole-acks" {
 					blackhole.Store(true)
 					time.AfterFunc(4*time.Second, func() { blackhole.Store(false) })
@@ -439,7 +470,7 @@ func vfC20Cases() []vfC20Case {
 	for rep := 0; rep < n; rep++ {
 		for _, s := range []string{"13-GCM128", "13-GCM256", "13-CHACHA"} {
 			for _, cid := range []int{-1, 4} {
-				for _, f := range []string{"none", "x", "x2", "x2sh", "blackhole-acks"} {
+				for _, f := range []string{"none", "x", "x2", "x2sh", "blackhole-acks", "nst-ack-lost"} {
 					for _, u := range []int{1, 3, 6} {
 						out = append(out, vfC20Case{Suite: s, CID: cid, Updates: u, Writers: 1 + idx%4, PerW: 6 + idx%5, Fault: f, Request: idx % 3, Idx: idx})
 						idx++
